@@ -222,6 +222,18 @@ def ctrlStep (d : CtrlDrv) (line : String) : CtrlDrv × String :=
       | .ok c => ctrlOut ⟨some c, [], false⟩ "ok" []
       | .error e => ctrlOut ⟨none, [], false⟩ (ferrName e) []
     | _, _, _, _, _, _, _, _ => bad
+  | "wlaw" :: rest =>
+    -- the arithmetic fact `WindowLaw`, evaluated: does x − h sort after x + h?
+    match kvF? rest "x", kvF? rest "h" with
+    | some x, some h =>
+      let lo := F64.sub x h
+      let hi := F64.add x h
+      let ok := PtpFilter.boundLe (lo, false) (hi, true)
+      let show_ (v : F64) := if v.isNaN then "nan" else v.toHex
+      -- (the order of NaN results depends on their sign, which the model does not track: not compared)
+      let verdict := if lo.isNaN || hi.isNaN then "-" else if ok then "1" else "0"
+      (d, s!"wlaw {verdict} {show_ lo} {show_ hi}")
+    | _, _ => bad
   | op :: rest =>
     if d.nanDead then (d, "nan-dead") else
     match d.ctrl with
